@@ -86,6 +86,7 @@ type World struct {
 	UDPTrackers  []*UDPTrackerSrv
 	Step     int
 	Labels   []string
+	mid      map[int]int // torrent index -> case whose handler is held in front of a reply send
 	Fails    []Failure
 	Names    []string
 	Cmds     []*Cmd
@@ -198,6 +199,9 @@ func (c *Cmd) IsDone(w *World) bool { w.mu.Lock(); defer w.mu.Unlock(); return c
 func (w *World) Ready(ti int) []int {
 	tor := w.Tors[ti]
 	var out []int
+	if _, held := w.mid[ti]; held {
+		return nil // the loop is inside a handler
+	}
 	for i := range w.Names {
 		key := fmt.Sprintf("%d/%d", ti, i)
 		if tor.VerifReady(i) == 1 {
@@ -219,20 +223,51 @@ func (w *World) Ready(ti int) []int {
 	return out
 }
 
-// Deliver makes tor's loop take select case idx and waits for the handler to finish.
+// Deliver makes tor's loop take select case idx and waits for the handler to finish (or to stop in front of
+// a reply send when the scenario switched torrent.VerifYieldReplies on: Continue resumes it).
 func (w *World) Deliver(ti, idx int) {
 	tor := w.Tors[ti]
 	tor.VerifPost(idx)
+	delete(w.firstReady, fmt.Sprintf("%d/%d", ti, idx))
+	w.afterStep(ti, idx)
+}
+
+// Continue resumes a handler held in front of its reply send.
+func (w *World) Continue(ti int) {
+	idx, ok := w.mid[ti]
+	if !ok {
+		core.HarnessError("Continue: torrent %d is not inside a handler", ti)
+	}
+	delete(w.mid, ti)
+	w.Tors[ti].VerifResume()
+	w.afterStep(ti, idx)
+}
+
+// MidHandler reports whether tor's loop is held inside a handler (it takes nothing else until continued).
+func (w *World) MidHandler(ti int) (string, bool) {
+	idx, ok := w.mid[ti]
+	if !ok {
+		return "", false
+	}
+	return w.Names[idx], true
+}
+
+func (w *World) afterStep(ti, idx int) {
+	tor := w.Tors[ti]
 	w.Quiesce()
 	r, ok := tor.VerifCollect()
-	for !ok && vpool.Parked() > 0 {
-		// the handler waits for a goroutine that the lab holds inside bufferpool.Get (e.g. Close of a web
-		// seed downloader waits for its Run): a real Get never blocks, so the hold ends here
-		vpool.ReleaseOne()
+	for !ok && (vpool.Parked() > 0 || len(w.Store.PendingOps()) > 0) {
+		// the handler waits for a goroutine that the lab holds inside bufferpool.Get or inside a gated storage
+		// operation (Close of a web seed downloader / of the allocator waits for its Run): the real operation
+		// does not block for ever, so the hold ends here, oldest first
+		if vpool.Parked() > 0 {
+			vpool.ReleaseOne()
+		} else {
+			w.Store.Release(0, nil)
+		}
 		w.Quiesce()
 		r, ok = tor.VerifCollect()
 	}
-	delete(w.firstReady, fmt.Sprintf("%d/%d", ti, idx))
 	name := w.Names[idx]
 	switch {
 	case !ok:
@@ -249,6 +284,11 @@ func (w *World) Deliver(ti, idx int) {
 		core.HarnessError("peek said case %s ready but it did not fire (step %d, labels %v)", name, w.Step, w.Labels)
 	case r.Code == 2:
 		w.Dead = "exit"
+	case r.Code == 3:
+		if w.mid == nil {
+			w.mid = map[int]int{}
+		}
+		w.mid[ti] = idx
 	}
 }
 
@@ -297,6 +337,9 @@ func (w *World) Advance(d time.Duration) {
 	time.Sleep(d)
 	w.Quiesce()
 	for ti, tor := range w.Tors {
+		if _, held := w.mid[ti]; held {
+			continue // inside a handler: its tickers stay pending
+		}
 		for i := range w.Names {
 			if w.Dead != "" {
 				return
@@ -527,6 +570,7 @@ func Exec(t *testing.T, sc *Scenario, arg json.RawMessage, prefix []int, expect 
 		vnet.Reset()
 		vrand.Reset()
 		vpool.Reset()
+		torrent.VerifYieldReplies = false
 		cryptorand.Reader = &detReader{}
 		torrent.VerifResetLoops()
 		w = &World{T: t, Sc: sc, Arg: arg, Dir: dir, Store: NewStore(), Names: torrent.VerifCaseNames(), Counters: map[string]int64{},
@@ -635,6 +679,15 @@ var traceSteps = os.Getenv("VERIF_TRACE") != ""
 func (w *World) teardown() {
 	w.Store.ReleaseAll()
 	vpool.ReleaseAll()
+	torrent.VerifYieldReplies = false
+	for ti := range w.Tors {
+		if _, held := w.mid[ti]; held {
+			w.Continue(ti)
+			if w.Dead == "hang" || w.Dead == "panic" {
+				w.teardownFail(w.Dead+".close", "handler resumed at teardown did not finish")
+			}
+		}
+	}
 	for _, t := range w.Trackers {
 		t.mu.Lock()
 		t.Auto = true
